@@ -90,6 +90,12 @@ pub fn vx_union_values_vec(m: Pending) -> (r: Vec<Family>)
         r@.no_duplicates(),
 { m.into_values().flatten().collect::<FnvHashSet<Family>>().into_iter().collect() }
 
+/// R11: `m.into_values().flatten().collect::<Vec<_>>()`: the families of all sets, one occurrence per set that holds them
+#[verifier::external_body]
+pub fn vx_flatten_values_vec(m: Pending) -> (r: Vec<Family>)
+    ensures forall|f: Family| #![trigger r@.contains(f)] r@.contains(f) <==> waits(pm(m), f),
+{ m.into_values().flatten().collect() }
+
 /// R11: `set.into_iter().collect::<Vec<_>>()`: every element once, order unspecified
 #[verifier::external_body]
 pub fn vx_set_into_vec_nodup(s: FnvHashSet<Family>) -> (r: Vec<Family>)
